@@ -266,6 +266,61 @@ def rule_no_content_cache(ctx, rep):
         )
 
 
+def _codec_calls(ctx, fn, which: str):
+    out = []
+    for c in walk_no_nested(fn.node):
+        if isinstance(c, ast.Call) and isinstance(c.func, ast.Attribute) and c.func.attr == which and not isinstance(c.func.value, ast.Constant):
+            codec = c.args[0].value if c.args and isinstance(c.args[0], ast.Constant) else next((k.value.value for k in c.keywords if k.arg == "encoding" and isinstance(k.value, ast.Constant)), "utf-8" if not c.args else None)
+            errors = next((k.value for k in c.keywords if k.arg == "errors"), c.args[1] if len(c.args) > 1 else None)
+            out.append((c, codec, errors))
+    return out
+
+
+def rule_codec_agree(ctx, rep):
+    rep.rule(
+        "R-CODEC-AGREE",
+        "each pipeline decodes the bytes it reads with an explicit constant codec, strictly (no errors= handler), hands the parser text "
+        "(never the raw bytes, which would let the parser pick another encoding), and encodes what it writes with the same codec — "
+        "otherwise bytes outside the reported hunks change on disk, or undecodable input is rewritten instead of failing",
+        min_instances=3,
+    )
+    from ..sites import write_wrappers
+
+    for fn in pipeline_applies(ctx):
+        fns = [fn]
+        r = ctx.resolver(fn)
+        for c in walk_no_nested(fn.node):
+            if isinstance(c, ast.Call):
+                for t in r.resolve_call(c):
+                    if isinstance(t, FuncInfo) and t.module.name.startswith("codemodder.codemods") and t.cls is None and t not in fns:
+                        fns.append(t)
+        decs, encs = [], []
+        for f in fns:
+            decs += [(f, *x) for x in _codec_calls(ctx, f, "decode")]
+            encs += [(f, *x) for x in _codec_calls(ctx, f, "encode")]
+        problems = []
+        if not decs:
+            problems.append("no explicit .decode(...) of the bytes read (the parser decides the encoding)")
+        if not encs:
+            problems.append("no explicit .encode(...) of the text written")
+        for f, c, codec, errors in decs:
+            if errors is not None and not (isinstance(errors, ast.Constant) and errors.value == "strict"):
+                problems.append(f"`{unparse(c)[:50]}` decodes with an error handler: undecodable input is altered instead of failing")
+            if codec is None:
+                problems.append(f"`{unparse(c)[:50]}` decodes with a non-constant codec")
+        codecs = {str(codec).lower().replace("_", "-") for _, _, codec, _ in decs + encs if codec is not None}
+        if len(codecs) > 1:
+            problems.append(f"read and write use different codecs {sorted(codecs)}")
+        # parser input must be text
+        for c in walk_no_nested(fn.node):
+            if isinstance(c, ast.Call) and last_attr(c.func) == "parse_module" and c.args:
+                chain = unparse(c.args[0])
+                v = r.expand(c.args[0])
+                if "read_bytes" in unparse(v) and ".decode(" not in unparse(v):
+                    problems.append(f"`{unparse(c)[:60]}` hands raw bytes to the parser")
+        rep.check("R-CODEC-AGREE", fn.qname, fn.loc(), not problems, "decode/encode", "; ".join(problems), codecs=sorted(codecs))
+
+
 def check(ctx, rep):
     rep.explanation = (
         "The 3 transformer pipelines' apply() and the 4 manifest writers' add_to_file() are enumerated from the class "
@@ -277,6 +332,7 @@ def check(ctx, rep):
     rule_empty_diff(ctx, rep)
     rule_newline(ctx, rep)
     rule_no_content_cache(ctx, rep)
+    rule_codec_agree(ctx, rep)
     rep.not_covered += [
         "byte-level applicability of difflib output (BOM, encodings, final newline arithmetic)",
         "lossless round-trip of libcst parse/emit (trusted)",
